@@ -155,6 +155,10 @@ def main():
         inputs.append(faultgen.clash_modules(rng.fork("clash%d" % i)))
     for src in faultgen.cast_programs():
         inputs.append([("c.pn", src)])
+    # the forwarding and address matrices of C08 (writes through every kind of parameter, `&` in every expression position)
+    import c08
+    for _what, src in c08.forwarding_matrix() + c08.address_matrix():
+        inputs.append([("w.pn", src)])
     # dependency graphs of constants and structures in shuffled declaration order, with and without cycles (the
     # compiler orders and partially generates these before anything else: a place where failures went unreported)
     import c11
@@ -186,6 +190,13 @@ def main():
         structured.append(c06.random_list(rng.fork("s%d" % i), 1 + rng.below(8), 4))
     for body in structured:
         inputs.append([("f.pn", c06.requests(body)[2])])
+    # bodies with declarations, uses, gotos and labels (the skeletons of C05), with and without anything else in scope:
+    # whatever the scoper lets through must survive code generation (a use that is not dominated by its declaration
+    # aborts in LLVM)
+    for i in range(8000 if thorough else 600):
+        vr = rng.fork("v%d" % i)
+        body = c05.multi_goto_body(vr, [10, 10]) if i % 2 else c05.random_body(vr, 1 + vr.below(12), 3, 2 + vr.below(2), 1 + vr.below(3))
+        inputs.append([("v.pn", c05.requests(body, 3 if i % 3 == 0 else i % 3)[2])])
     # probes: the minimal inputs of the known findings, so that each is exercised on every run
     two_mains = "fn main() -> i32\n{\n\treturn: 1\n}\n"
     for name, src in corpus:
@@ -196,6 +207,7 @@ def main():
     inputs.append([("m.pn", "fn main()\n{\n\tvar a: void = 10;\n\tvar b: &u8 = &a;\n}\n")])
     inputs.append([("m.pn", "fn main()\n{\n\tvar x: [5000000000]u8;\n}\n")])
     inputs.append([("m.pn", "fn main()\n{\n\tvar a: [2]i64 = [1i64, 2i8];\n}\n")])
+    inputs.append([("m.pn", "fn f(ps: []&i32)\n{\n\tps[0] = 9;\n}\nfn main()\n{\n}\n")])
     reqs = ["alpha\tir\t" + "\t".join(x for nm, s in u for x in (nm, esc(s))) for u in inputs]
     h = run_harness(reqs)
     bad = collections.OrderedDict()
@@ -240,6 +252,37 @@ def main():
         rep.violation(("c02:" + known_key) if known_key else ("c02:" + sig + ":" + "|".join(s for _, s in u)[:400]), {
             "why": "compilation ended as `%s` (%d such inputs in this run)" % (classify(a), len(cases)),
             "files": dict(u), "harness_request": rq, "implementation": a[:600]})
+    # the diagnostics of every rejected input are rendered as the command line renders them (all colour / charset
+    # configurations): a failure must END in diagnostics, so a panic or failure while rendering them breaks the property too
+    rej = [i for i, a in enumerate(h) if classify(a) == "err"]
+    if not thorough:
+        # quick: every distinct error-code set once, plus a sample
+        seen_codes = set()
+        keep = []
+        for i in rej:
+            cs = kv(h[i])[1].get("codes", "")
+            if cs not in seen_codes or i % 7 == 0:
+                seen_codes.add(cs)
+                keep.append(i)
+        rej = keep
+    dreqs = ["diag\t" + "\t".join(x for nm, s_ in inputs[i] for x in (nm, esc(s_))) for i in rej]
+    dh = run_harness(dreqs)
+    rendered_bad = collections.OrderedDict()
+    for i, rq, a in zip(rej, dreqs, dh):
+        if a.startswith("panic") or a.startswith("crash"):
+            sig = re.sub(r"[0-9]+", "N", a[:120])
+        else:
+            mm = re.search(r"render=(\S+)", a)
+            if mm and mm.group(1).startswith("ok"):
+                dist["rendered"] += 1
+                continue
+            sig = "render:" + re.sub(r"[0-9]+", "N", (mm.group(1) if mm else a[:80]))[:120]
+        rendered_bad.setdefault(sig, []).append((inputs[i], rq, a))
+    for sig, cases in rendered_bad.items():
+        u, rq, a = min(cases, key=lambda x: sum(len(s_) for _, s_ in x[0]))
+        rep.violation("c02:rendering:" + sig, {
+            "why": "the diagnostics of a rejected input cannot be rendered (%d such inputs in this run)" % len(cases),
+            "files": dict(u), "harness_request": rq, "implementation": a[:600]})
     report_broken_proof(rep)
     rep.coverage.update({
         "evaluations": len(inputs), "distinct_nontrivial": len(set(reqs)),
@@ -247,7 +290,7 @@ def main():
                 "(exhaustive: %d); corpus files (tests/samples valid+invalid, examples, core, vendor) with 0-3 textual faults; "
                 "generated programs with 1-3 faults; token soup; nesting depth up to 256 (blocks, parentheses, pointer and array "
                 "types); 2-3 module sets; each through lex .. generate_ir/link in a worker process (panics caught per case, a "
-                "dead worker is detected and restarted); outcome must be ok or err with a non-empty code list"
+                "dead worker is detected and restarted); outcome must be ok or err with a non-empty code list; the diagnostics of rejected inputs are rendered in every colour / charset configuration"
                 % ("3 (4 over a 24-token sub-alphabet)" if thorough else "2", len(faultgen.TOKENS), n_exh),
         "exhaustive": True,
         "traces_validated_against_impl": dist["ok"] + dist["err"], "distribution": dict(dist),
